@@ -49,45 +49,60 @@ def homogeneous(R, rho, mu, K, N, r0):
     return (r, np.full(N, rho, dtype=float), g, np.full(N, K, dtype=float), np.full(N, mu, dtype=np.complex128))
 
 
-def layered_body(layers, R, r0, n_per_layer, profile='const', rng=None):
-    """layers: list of dicts {type, static, incomp, ftop, rho, mu, K}; returns arrays following the test-suite grid
+def layered_body(layers, R, r0, n_per_layer, profile='const', rng=None, radii_by_layer=None):
+    """layers: list of dicts {type, static, incomp, ftop, rho, mu, K[, trend]}; returns arrays following the test-suite grid
     convention (the interface slice belongs to the lower layer; the next layer starts one slice above it).
-    n_per_layer: int or list.  profile 'linear' adds a linear trend (<= +-10 %) to rho, mu, K inside each layer."""
-    rs, rhos, mus, Ks, tops, idx = [], [], [], [], [], []
-    r_in = r0
+    n_per_layer: int or list.  profile 'linear': rho, mu, K vary linearly in r inside each layer (<= +-10 %), defined on the
+    TRUE layer boundaries (0 for the innermost layer) so that the planet does not depend on the grid; enclosed mass (hence
+    gravity) is integrated analytically.  radii_by_layer: optional explicit list of slice radii per layer."""
     nl = len(layers)
     if isinstance(n_per_layer, int):
         n_per_layer = [n_per_layer] * nl
+    bounds = [0.0] + [float(L['ftop']) * R for L in layers]
+    coef = []     # per layer: (rho_mid, slope per unit x) for rho, mu, K
+    for L in layers:
+        a, b, c = (L.get('trend', (0.05, -0.08, 0.06)) if profile == 'linear' else (0.0, 0.0, 0.0))
+        coef.append((a, b, c))
+
+    def xof(i, r):
+        return (r - bounds[i]) / (bounds[i + 1] - bounds[i])
+
+    def rho_at(i, r):
+        return layers[i]['rho'] * (1 - coef[i][0] * (xof(i, r) - 0.5))
+
+    def mass_in_layer(i, ra, rb):
+        # rho(r) = A + B r
+        w = bounds[i + 1] - bounds[i]
+        B = -layers[i]['rho'] * coef[i][0] / w
+        A = layers[i]['rho'] * (1 + coef[i][0] * 0.5) - B * bounds[i]
+        return 4.0 * np.pi * (A * (rb ** 3 - ra ** 3) / 3.0 + B * (rb ** 4 - ra ** 4) / 4.0)
+    cum = [0.0]
+    for i in range(nl):
+        cum.append(cum[-1] + mass_in_layer(i, bounds[i], bounds[i + 1]))
+    rs, rhos, mus, Ks, idx = [], [], [], [], []
+    r_in = r0
     for i, L in enumerate(layers):
         n = n_per_layer[i]
-        r_top = L['ftop'] * R
-        r = np.linspace(r_in, r_top, n) if i == 0 else np.linspace(r_in, r_top, n + 1)[1:]
-        x = (r - r[0]) / max(r[-1] - r[0], 1e-300)
-        if profile == 'linear':
-            a, b, c = L.get('trend', (0.05, -0.08, 0.06))
+        r_top = bounds[i + 1]
+        if radii_by_layer is not None:
+            r = np.asarray(radii_by_layer[i], dtype=float)
         else:
-            a = b = c = 0.0
+            r = np.linspace(r_in, r_top, n) if i == 0 else np.linspace(r_in, r_top, n + 1)[1:]
+        x = xof(i, r)
         rs.append(r)
-        rhos.append(L['rho'] * (1 - a * (x - 0.5)))
-        mus.append((L['mu'] if L['type'] == 'solid' else 0j) * (1 + b * (x - 0.5)) * np.ones(n, dtype=complex))
-        Ks.append(L['K'] * (1 + c * (x - 0.5)))
-        tops.append(float(r_top))
-        idx.append(np.full(n, i))
+        rhos.append(rho_at(i, r))
+        mus.append((L['mu'] if L['type'] == 'solid' else 0j) * (1 + coef[i][1] * (x - 0.5)) * np.ones(len(r), dtype=complex))
+        Ks.append(L['K'] * (1 + coef[i][2] * (x - 0.5)))
+        idx.append(np.full(len(r), i))
         r_in = r_top
     r = np.concatenate(rs)
     rho = np.concatenate(rhos).astype(float)
     mu = np.concatenate(mus).astype(np.complex128)
     K = np.concatenate(Ks).astype(float)
     lay = np.concatenate(idx)
-    M = np.zeros_like(r)
-    m = 0.0
-    prev = 0.0
-    for i in range(len(r)):
-        m += 4.0 / 3.0 * np.pi * rho[i] * (r[i] ** 3 - prev ** 3)
-        prev = r[i]
-        M[i] = m
+    M = np.array([cum[i] + mass_in_layer(i, bounds[i], rr) for i, rr in zip(lay, r)])
     g = G * M / r ** 2
-    bulk = M[-1] / (4.0 / 3.0 * np.pi * r[-1] ** 3)
-    return {'r': r, 'rho': rho, 'g': g, 'K': K, 'mu': mu, 'bulk': float(bulk), 'tops': tuple(tops), 'layer_index': lay,
+    bulk = cum[-1] / (4.0 / 3.0 * np.pi * R ** 3)
+    return {'r': r, 'rho': rho, 'g': g, 'K': K, 'mu': mu, 'bulk': float(bulk), 'tops': tuple(float(b) for b in bounds[1:]), 'layer_index': lay,
             'types': tuple(L['type'] for L in layers), 'static': tuple(bool(L['static']) for L in layers),
             'incomp': tuple(bool(L['incomp']) for L in layers)}
